@@ -244,13 +244,30 @@ func runNil1(m *Model, r *RuleResult) {
 					if ia, ok := ref.(*ssa.IndexAddr); ok && ia.X == v {
 						idx = append(idx, ia)
 					}
+					// handed to a module function that indexes the parameter (xslices.Last(dlist)): the call is the index use
+					if c2, ok := ref.(*ssa.Call); ok {
+						if cal := c2.Call.StaticCallee(); cal != nil && inModule(cal) && len(cal.Blocks) > 0 {
+							for i, a := range c2.Call.Args {
+								if a != v || i >= len(cal.Params) || cal.Params[i].Referrers() == nil {
+									continue
+								}
+								for _, r2 := range *cal.Params[i].Referrers() {
+									if ia, ok := r2.(*ssa.IndexAddr); ok && ia.X == ssa.Value(cal.Params[i]) {
+										idx = append(idx, c2)
+										break
+									}
+								}
+							}
+						}
+					}
 				}
 			}
 			if len(idx) == 0 {
 				return // only ranged over, appended to, returned or tested
 			}
 			n[callee.Name()]++
-			key := fmt.Sprintf("nil-result-indexed:%s<-%s#%d", funcKey(f), callee.Name(), n[callee.Name()])
+			// keyed by the function that says "no result" (and the package of the caller): moving the call site into a helper is the same construct
+			key := fmt.Sprintf("nil-result-indexed:%s<-%s", shortPkg(pkgPathOf(f)), callee.Name())
 			ctl := m.FuncIsPosctl(f)
 			var bad []string
 			for _, use := range idx {
